@@ -73,7 +73,7 @@ Hypothesis arm_lo : forall x a, 0 <= x <= DMAX -> arm x = Some a -> x <= a.
 Definition loopk := negb (is_single K).
 
 Definition dl_set (p : pc) : bool :=
-  match p with Top | ReadRem | Enter | Parked | After _ | Chk | Ret RTimeout => true | _ => false end.
+  match p with Top | Enter | Parked | After _ | Chk | Ret RTimeout => true | _ => false end.
 
 Definition InvNE (s : st) : Prop :=
   0 <= dur s /\
@@ -83,7 +83,7 @@ Definition InvNE (s : st) : Prop :=
   (pcs s = Parked \/ pcs s = After VTimeout -> tcall s <= tp s <= now s) /\
   (pcs s = After VTimeout -> exists a, ar s = Some a /\ tp s + a <= now s) /\
   (loopk = false -> pcs s = Parked \/ pcs s = After VTimeout -> ar s = arm (dur s)) /\
-  (loopk = false -> pcs s <> ReadDl /\ pcs s <> ReadRem /\ pcs s <> Chk) /\
+  (loopk = false -> pcs s <> ReadDl /\ pcs s <> Chk) /\
   (pcs s = Ret RTimeout ->
      if loopk then obs s = true /\ dl s <= now s else dur s <= DMAX -> tcall s + dur s <= now s).
 
